@@ -403,11 +403,18 @@ def gen_case(seed):
         if cands:
             abs_, d = r.pick(cands)
             rebuild = {'proc': d[0][0], 'spath': d[0][1], 'abs': list(abs_), 'default': r.rint(500, 600)}
+    # the engine built around an existing store, with an initial state that names glob
+    # children the store does not hold yet (own stream: earlier seeds keep their cases)
+    store_entry = None
+    rs = Rng(derive(seed, 'store_entry'))
+    if rs.chance(12) and not conflict and not rebuild and not swarm['composite_init']:
+        late = [list(g) + [kid] for g, kids in gkids.items() for kid in kids if rs.chance(50)]
+        store_entry = {'late': late}
     return {
         'profile': PROFILE, 'seed': seed,
         'conflict': conflict, 'rebuild': rebuild,
         'opts': {'precision': None, 'unit': unit, 'emit_step': 1, 't0': 0,
-                 'composite_init': swarm['composite_init']},
+                 'composite_init': swarm['composite_init'], 'store_entry': store_entry},
         'pool': [[list(p_), a] for p_, a in pool.items()],
         'gsub': [[list(g), {v: a for v, a in sub.items()}] for g, sub in gsub.items()],
         'procs': procs, 'init': init_state, 'ops': ops,
@@ -523,9 +530,22 @@ def execute(case, perm=None, parallel=(), sim_seed=None, tail_ops=()):
             ov = {}
             harness.assoc(ov, list(rb['spath']), {'_default': rb['default']})
             node.merge_overrides(ov)
-        eng = harness.make_engine(
-            run, budget_for(case, 1),
-            processes=processes, topology=topology, initial_state=init)
+        se = opts.get('store_entry')
+        if se:
+            from vivarium.core.store import generate_state
+            first = copy.deepcopy(init)
+            for path in se['late']:
+                node = first
+                for seg in path[:-1]:
+                    node = node.get(seg, {}) if isinstance(node, dict) else {}
+                if isinstance(node, dict):
+                    node.pop(path[-1], None)
+            store = generate_state(processes, topology, first)
+            eng = harness.make_engine(run, budget_for(case, 1), store=store, initial_state=init)
+        else:
+            eng = harness.make_engine(
+                run, budget_for(case, 1),
+                processes=processes, topology=topology, initial_state=init)
         if eng is not None:
             harness.drive(run, eng, case['ops'], unit,
                           lambda op: budget_for(case, op[1] if len(op) > 1 else 1))
